@@ -378,18 +378,26 @@ Definition leaf_mw_limit : bytes :=
 Definition leaf_new_mux : bytes :=
   [104;116;116;112;46;78;101;119;83;101;114;118;101;77;117;120;40;41]%N.       (* http.NewServeMux() *)
 
+Definition str_localhost : bytes :=
+  [73;80;118;52;76;111;99;97;108;104;111;115;116]%N.   (* IPv4Localhost *)
+
+Fixpoint has_infix (x s : bytes) : bool :=
+  has_prefix x s || match s with [] => false | _ :: s' => has_infix x s' end.
+
 (** Every server serves the admin mux (behind limitRequestBody and library
     middleware that takes a handler argument); the profiling server serves its
-    own mux. *)
-Definition server_ok (s : bytes * bytes * list bytes) : bool :=
-  let '(fn, _, leaves) := s in
+    own mux and listens on netutil.IPv4Localhost().  A server literal without
+    a Handler (it would serve http.DefaultServeMux) is rejected. *)
+Definition server_ok (s : bytes * bytes * bytes * list bytes) : bool :=
+  let '(fn, _, addr, leaves) := s in
   (existsb (eqb_bytes mux_global) leaves &&
    forallb (fun l => eqb_bytes l mux_global || eqb_bytes l leaf_mw_limit) leaves)
-  || (has_suffix str_startPprof fn && forallb (eqb_bytes leaf_new_mux) leaves).
+  || (has_suffix str_startPprof fn && has_infix str_localhost addr &&
+      negb (match leaves with [] => true | _ => false end) && forallb (eqb_bytes leaf_new_mux) leaves).
 
 Definition table_ok (rts : list route) (reg_empty reg_method : list wrapper)
     (bs : list (bind_src * bytes)) (ms : list (bytes * bytes * bytes))
-    (ss : list (bytes * bytes * list bytes)) : bool :=
+    (ss : list (bytes * bytes * bytes * list bytes)) : bool :=
   forallb (route_ok reg_empty reg_method) rts && negb (match rts with [] => true | _ => false end) &&
   forallb binding_ok bs && forallb mux_ok ms && forallb server_ok ss.
 
